@@ -200,13 +200,13 @@ class CFG:
     def dominates(self, a: int, b: int) -> bool:
         """a dominates b (every path entry->b passes a)."""
         idom = self.dominators()
-        if b not in idom:
+        if b not in idom and b != self.entry:
             return False   # unreachable
         x = b
         while True:
             if x == a:
                 return True
-            if idom[x] == x:
+            if x == self.entry or x not in idom or idom[x] == x:
                 return False
             x = idom[x]
 
